@@ -962,7 +962,7 @@ fn group_transformed(ctx: &GroupCtx<'_>, files: Vec<FileInfo>) -> Vec<FileGroup<
     let groups = rehash(
         groups,
         |_| true,
-        |g| g.matches(&ctx.group_filter),
+        |g| g.matches_strictly(&ctx.group_filter),
         &ctx.devices,
         FileAccess::Sequential,
         |(fi, _)| {
